@@ -69,7 +69,7 @@ D = {
   rule="setcallback placed before / between / after in-flight items and the peer's close (the schedule decides where relative to the receiver thread), endings by close, error, end of body and gateway exit, with and without endmarker, callback channels whose object was dropped, two callback channels at once",
   ntext="non-trivial = the callback was invoked at least twice", known="None"),
 "c18": dict(title="C18 -- channel ids never collide and channels travel over channels intact",
-  cfgs='["GW_data"] if ctx.quick else ["GW_data", "GW_data_big"]', mutants='[]',
+  cfgs='[("MCChanIds", "CI"), "GW_data"] if ctx.quick else [("MCChanIds", "CI"), ("MCChanIds", "CI_big"), "GW_data", "GW_data_big"]', mutants='[("MCChanIds", "CI_nolock")]',
   fam="c18_programs(rng, 8 if ctx.quick else 60)", own='["C18.", "C02."]',
   line='["new", "newchannel", "remote_exec", "load_channel", "_no_longer_opened", "close", "__init__"]',
   nontriv='lambda evs: sum(1 for e in evs if e["ev"] == "ret" and e["op"] in ("newchannel", "remote_exec")) >= 3',
